@@ -53,6 +53,9 @@ func (in *interp) clockNow() value {
 		// package initialisers ran before the harness natively: a fixed instant, not a model reading
 		return in.mkTime(uint64(1), int64(ClockLo), in.locSentinel())
 	}
+	if in.fixedClock != nil {
+		return in.mkTime(uint64(1), *in.fixedClock, in.locSentinel())
+	}
 	k := in.clockN
 	in.clockN++
 	if os.Getenv("GOSMT_SCHEDDBG") != "" {
